@@ -10,7 +10,7 @@ from harness import pdiff
 PROPERTY = 'C19'
 LEVEL = 'exploration'
 RULE = ('JSON values generated recursively (null, booleans, integers incl. huge, fractional and exponent numbers, '
-        'negative numbers and zeros, strings, arrays, objects with arbitrary string keys incl. empty and duplicate) and '
+        'negative numbers and zeros, numbers beyond the range of a double in either direction, strings, arrays, objects with arbitrary string keys incl. empty and duplicate) and '
         'written by the harness\'s own serialiser with drawn spellings: number forms 12 / -12 / 1.50 / 1e3 / 1E+3 / -0 / '
         '0.000001, each string character raw or as one of its JSON escapes (\\" \\\\ \\/ \\b \\f \\n \\r \\t \\uXXXX, '
         'surrogate pairs for astral characters), arbitrary JSON white space; content restricted to what is valid in both '
@@ -98,7 +98,11 @@ def json_string(draw):
 
 @st.composite
 def json_number(draw):
-    kind = draw(st.sampled_from(['int', 'int', 'neg', 'frac', 'exp', 'zero', 'huge', 'small']))
+    kind = draw(st.sampled_from(['int', 'int', 'neg', 'frac', 'exp', 'zero', 'huge', 'small', 'range']))
+    if kind == 'range':
+        # beyond the range of a double in either direction: a JSON parser gives an infinity or a zero
+        return draw(st.sampled_from(['1e400', '1E+999', '1.7976931348623159e308', '2e308', '1e309', '12345e305',
+                                     '1e-400', '4e-324', '2e-324', '0.1e-323', '9' * 320, '1' + '0' * 309])), True
     if kind == 'int':
         return str(draw(st.integers(0, 10 ** 6))), False
     if kind == 'neg':
